@@ -1091,13 +1091,11 @@ Qed.
 Definition assign_toks (n : str) (e : expr F) : list (token F) :=
   TText n :: TOperator OP_EQ :: toks_of e.
 
-(* parsing: the right-hand side is read back as the tree and the variable is registered
-   (with no value yet) unless the session already has it *)
+(* parsing: the right-hand side is read back as the tree; the assignment node carries the key and
+   the name tokens, and the session is not touched (registration happens at execution) *)
 Theorem c02_assign_parse : forall vs n (e : expr F), wf e = true ->
   parse (assign_toks n e) vs =
-  (PAst (AAssignment (to_lowercase n) (ast_of e)),
-   if assoc_mem (to_lowercase n) vs then vs
-   else assoc_insert (to_lowercase n) {| v_tokens := [TText n]; v_data := ANone |} vs).
+  (PAst (AAssignment (to_lowercase n) [TText n] (ast_of e)), vs).
 Proof.
   intros vs n e Hwf. unfold parse, parse_assignment, assign_toks.
   change (find_index (is_op OP_EQ) (TText n :: TOperator OP_EQ :: toks_of e)) with (Some 1).
@@ -1127,35 +1125,33 @@ Proof.
       * simpl. rewrite E. exact IH.
 Qed.
 
-(* execution: the computed value is stored in the registered variable *)
-Theorem c02_assign_exec : forall bexec cfg vs name vi (e : expr F),
-  assoc name vs = Some vi ->
-  execute_ast bexec cfg vs (AAssignment name (ast_of e)) =
+(* execution: the computed value is stored; an existing variable keeps its name tokens, a new one
+   is registered now with the tokens carried by the node *)
+Theorem c02_assign_exec : forall bexec cfg vs name toks (e : expr F),
+  execute_ast bexec cfg vs (AAssignment name toks (ast_of e)) =
   Ok (IOk (AItem (INumber (denote e) Decimal)),
-      assoc_insert name {| v_tokens := v_tokens vi;
+      assoc_insert name {| v_tokens := match assoc name vs with Some vi => v_tokens vi | None => toks end;
                            v_data := AItem (INumber (denote e) Decimal) |} vs).
 Proof.
-  intros bexec cfg vs name vi e Hvi. cbn [execute_ast]. rewrite c02_eval. cbn [bind].
-  rewrite Hvi. reflexivity.
+  intros bexec cfg vs name toks e. cbn [execute_ast]. rewrite c02_eval. cbn [bind].
+  destruct (assoc name vs); reflexivity.
 Qed.
 
 Theorem c02_assignment : forall bexec cfg vs n (e : expr F),
   wf e = true -> assoc_mem (to_lowercase n) vs = false ->
   let name := to_lowercase n in
-  exists vs1 vs2,
-    parse (assign_toks n e) vs = (PAst (AAssignment name (ast_of e)), vs1) /\
-    assoc name vs1 = Some {| v_tokens := [TText n]; v_data := ANone |} /\
-    execute_ast bexec cfg vs1 (AAssignment name (ast_of e)) =
+  exists vs2,
+    parse (assign_toks n e) vs = (PAst (AAssignment name [TText n] (ast_of e)), vs) /\
+    execute_ast bexec cfg vs (AAssignment name [TText n] (ast_of e)) =
       Ok (IOk (AItem (INumber (denote e) Decimal)), vs2) /\
     assoc name vs2 =
       Some {| v_tokens := [TText n]; v_data := AItem (INumber (denote e) Decimal) |}.
 Proof.
   intros bexec cfg vs n e Hwf Hmem name. subst name.
-  rewrite (c02_assign_parse vs n e Hwf), Hmem.
-  eexists. eexists. split; [reflexivity|]. split; [apply assoc_insert_same|].
-  split.
-  - apply c02_assign_exec. apply assoc_insert_same.
-  - cbn [v_tokens]. apply assoc_insert_same.
+  rewrite (c02_assign_parse vs n e Hwf).
+  eexists. split; [reflexivity|]. split; [apply c02_assign_exec|].
+  rewrite assoc_insert_same. unfold assoc_mem in Hmem.
+  destruct (assoc (to_lowercase n) vs); [discriminate|reflexivity].
 Qed.
 
 (* post-processing of the assignment line: the scan starts after the '=' *)
@@ -1198,17 +1194,16 @@ Theorem c02_assign_level : forall bexec cfg vs infos i n (e : expr F),
   assoc_mem (to_lowercase n) vs = false ->
   let name := to_lowercase n in
   let tokens := missing_token_adder (token_cleaner infos (assign_toks n e)) in
-  exists vs1 vs2,
-    parse tokens vs = (PAst (AAssignment name (ast_of e)), vs1) /\
-    execute_ast bexec cfg vs1 (AAssignment name (ast_of e)) =
+  exists vs2,
+    parse tokens vs = (PAst (AAssignment name [TText n] (ast_of e)), vs) /\
+    execute_ast bexec cfg vs (AAssignment name [TText n] (ast_of e)) =
       Ok (IOk (AItem (INumber (denote e) Decimal)), vs2) /\
     assoc name vs2 =
       Some {| v_tokens := [TText n]; v_data := AItem (INumber (denote e) Decimal) |}.
 Proof.
   intros bexec cfg vs infos i n e Hwf Hinf Hmem name tokens. subst name tokens.
   rewrite (c02_assign_token_cleaner_id infos i n e Hinf), c02_assign_missing_token_adder_id.
-  destruct (c02_assignment bexec cfg vs n e Hwf Hmem) as (vs1 & vs2 & H1 & _ & H3 & H4).
-  exists vs1, vs2. auto.
+  exact (c02_assignment bexec cfg vs n e Hwf Hmem).
 Qed.
 
 End WithNum.
